@@ -4,14 +4,17 @@ C12 — sender side of acknowledged requests, client role.
 Property theorems only (helper lemmas: `Proofs/Client*.lean`).  Model:
 `Model/Client.lean` (code-shaped, tied to `service.Client` by the scripted-peer
 correspondence runs); specification: `Spec/Client.lean`.  The recorded
-deviations of the code (E5 ack-before-registration, the A2 identifier wrap) are
-kept out of the `…_partial` statements by explicit hypotheses and proved as
-closed `…_counterexample`s on the model.  (The single ping slot of
-`sessions.Ackqueue` and E9 - one callback invocation per matching filter of a
-request - were two of them; both were repaired and the theorems that carried
-their hypotheses are stated at full strength.)
+deviations of the code (E5 ack-before-registration; identifiers assigned from a
+16-bit cycle without regard to what is in flight) are kept out of the
+`…_partial` statements by explicit hypotheses and proved as closed
+`…_counterexample`s on the model.  (The single ping slot of
+`sessions.Ackqueue`, E9 - one callback invocation per matching filter of a
+request - and A2 - identifier 0 at the wrap of the counter - were three more;
+they were repaired and the theorems that carried their hypotheses are stated at
+full strength.)
 -/
 import Mqtt.Proofs.ClientRefine
+import Mqtt.Proofs.ClientIds
 
 set_option linter.unusedSimpArgs false
 
@@ -19,6 +22,7 @@ namespace Mqtt.Properties.C12
 open Mqtt.Iface.Broker (Pub Packet Bytes)
 open Mqtt.Iface.Client
 open Mqtt.Model.Client
+open Mqtt.Model.Broker (nextPacketID)
 open Mqtt.Proofs.Client
 
 /-! ## (a) every PUBREC is answered by a PUBREL with the same identifier -/
@@ -94,19 +98,25 @@ theorem C12_queue_conservation (k : Kind) (c : C) (evs : List Ev) :
 
 /-- **C12, exactly-once FIFO completion.**  For every state of a connected
 client and every history of API calls and packets from the peer without the
-ack-before-registration interleaving, in which every acknowledged request
-carries an identifier supplied by the caller that is non-zero and not in
-flight in its queue (`Fresh`): the completion tags fired for kind `k`, followed
-by the tags of the requests still in queue `k`, are the tags that were in the
-queue initially followed by the tags of the requests of kind `k` the caller
-made, in call order (tag 0 = no callback).  Hence every completion callback
-fires at most once, in the order of the calls, and none fires that was not
-requested. -/
+ack-before-registration interleaving, in which every acknowledged request is
+written with an identifier - supplied by the caller or assigned by the library -
+that is not in flight in its queue (`FreshA`; implied by `Fresh`, which admits
+caller-supplied identifiers only, and by `Clear`): the completion tags fired
+for kind `k`, followed by the tags of the requests still in queue `k`, are the
+tags that were in the queue initially followed by the tags of the requests of
+kind `k` the caller made, in call order (tag 0 = no callback).  Hence every
+completion callback fires at most once, in the order of the calls, and none
+fires that was not requested. -/
 theorem C12_exactly_once_fifo (k : Kind) (c : C) (evs : List Ev) (hc : c.connected = true)
-    (he : noEarly evs = true) (hf : Fresh c evs = true) :
+    (he : noEarly evs = true) (hf : FreshA c evs = true) :
     fired k c evs ++ nz ((queue k (runState c evs)).map (·.tag)) =
       nz ((queue k c).map (·.tag)) ++ nz (requestedTags k evs) := by
-  rw [run_conservation_tags k c evs he, accepted_fresh k c evs hc he hf]
+  rw [run_conservation_tags k c evs he, accepted_freshA k c evs hc he hf]
+
+/-- the hypothesis of `C12_exactly_once_fifo` is weaker than "every identifier is supplied by the
+caller, non-zero and not in flight in its queue" -/
+theorem C12_fresh_implies_freshA (c : C) (evs : List Ev) (h : Fresh c evs = true) : FreshA c evs = true :=
+  freshA_of_fresh c evs h
 
 /-- **When a completion fires** (never early, no later than permitted).  While a
 connected client processes the terminal acknowledgement of kind `k` bearing
@@ -180,6 +190,7 @@ def demoC : List Ev :=
 example :
     (step init (.connect (.connack false 0))).1.connected = true ∧
     noEarly demoC.tail = true ∧ Fresh (step init (.connect (.connack false 0))).1 demoC.tail = true ∧
+    FreshA (step init (.connect (.connack false 0))).1 demoC.tail = true ∧
     runOuts init demoC =
       [[.connected],
        [.wrote (.publish { qos := 1, topic := [97], pktid := 1, payload := [1] })],
@@ -310,55 +321,89 @@ example :
       doneTags (step (step c (.api call)).1 (.peer (.suback 7 [2]))).2 = [21] := by
   decide
 
-/-! ## (e) packet identifiers -/
+/-! ## (e) packet identifiers
+
+`assigned c id` is the identifier a request is written with: the caller's (`id ≠ 0`), or the next
+one of the process-wide counter (`Model.Broker.nextPacketID`, the model of `message.nextPacketID`:
+identifier 0 is skipped).  Because the counter is process-wide, histories here may contain, between
+the events of the connection, `others d`: other connections of the process draw identifiers, the
+counter advances by `d` (`PEv`, `prunState`). -/
+
+/-- `nextPacketID` in closed form: the identifier is the new counter value modulo 2^16, never 0;
+the counter advances by 1, by 2 when its low 16 bits pass 0; every call is one draw
+(`drawn n = n - n / 65536` counts the identifiers drawn while the counter went from 0 to `n`). -/
+theorem C12_next_identifier (ctr : Nat) :
+    (nextPacketID ctr).1 = (nextPacketID ctr).2 % 65536 ∧ (nextPacketID ctr).1 ≠ 0 ∧
+    (nextPacketID ctr).1 < 65536 ∧
+    (nextPacketID ctr).2 = (if (ctr + 1) % 65536 = 0 then ctr + 2 else ctr + 1) ∧
+    drawn (nextPacketID ctr).2 = drawn ctr + 1 := by
+  refine ⟨(nextPacketID_spec ctr).1, (nextPacketID_spec ctr).2.1, (nextPacketID_spec ctr).2.2.1, ?_, drawn_next ctr⟩
+  unfold nextPacketID
+  by_cases h : (ctr + 1) % 65536 = 0
+  · rw [if_neg (by simpa using h), if_pos h]
+  · rw [if_pos h, if_neg h]
 
 /-- Every QoS 1/2 PUBLISH, SUBSCRIBE and UNSUBSCRIBE a connected client writes
 (`callReq call = some (k, id, tag)`: `id` is the identifier the caller
 supplied, 0 = none) carries exactly one identifier, `assigned c id`: the
-caller's when it supplied one, otherwise the next value of the library's
-counter, `(ctr + 1) % 65536`; and the request is registered in its ack queue
-under that same identifier. -/
+caller's when it supplied one (the counter stays), otherwise the next
+identifier of the library's counter (the counter moves to the value that
+produced it); and the request is registered in its ack queue under that same
+identifier. -/
 theorem C12_written_identifier (c : C) (hc : c.connected = true) (call : Api) (k : Kind) (id tag : Nat)
     (h : callReq call = some (k, id, tag)) :
     (step c (.api call)).2.filterMap writtenId = [assigned c id] ∧
     (∀ r ∈ stepAccepted k c (.api call), r.id = assigned c id) ∧
-    (id ≠ 0 → assigned c id = id) ∧ (id = 0 → assigned c id = (c.ctr + 1) % 65536) := by
+    (id ≠ 0 → assigned c id = id ∧ (step c (.api call)).1.ctr = c.ctr) ∧
+    (id = 0 → assigned c id = (nextPacketID c.ctr).1 ∧ (step c (.api call)).1.ctr = (nextPacketID c.ctr).2) := by
   refine ⟨(step_api_written c hc call k id tag h).1, (step_api_written c hc call k id tag h).2, ?_, ?_⟩
-  · intro hne; simp [assigned, hne]
-  · intro h0; simp [assigned, h0]
+  · intro hne
+    refine ⟨by simp [assigned, hne], ?_⟩
+    rw [step_ctr]; simp [evDraws, drawsId, h, hne]
+  · intro h0
+    refine ⟨by simp [assigned, h0], ?_⟩
+    rw [step_ctr]; simp [evDraws, drawsId, h, h0, hc]
 
-/-- The written identifier is non-zero exactly when the caller supplied one or
-the counter is not at 65535 (mod 65536). -/
-theorem C12_identifier_nonzero_iff (c : C) (id : Nat) :
-    assigned c id ≠ 0 ↔ id ≠ 0 ∨ c.ctr % 65536 ≠ 65535 :=
-  assigned_ne_zero_iff c id
+/-- **C12, identifiers are non-zero.**  No event, in no state - whatever the
+counter, whatever the queues hold, early acknowledgements included - makes the
+client write a PUBLISH (QoS 1/2), SUBSCRIBE or UNSUBSCRIBE with packet
+identifier 0.  (The model of the code before repair A2 wrote 0 with the
+counter at 65535 modulo 2^16.) -/
+theorem C12_identifier_nonzero (c : C) (ev : Ev) : ∀ i ∈ (step c ev).2.filterMap writtenId, i ≠ 0 :=
+  step_written_nonzero c ev
 
-/-- the statement of the property: every identifier written is non-zero -/
-def C12_identifier_nonzero_full : Prop :=
-  ∀ (c : C) (call : Api) (k : Kind) (id tag : Nat), c.connected = true → callReq call = some (k, id, tag) →
-    ∀ i ∈ (step c (.api call)).2.filterMap writtenId, i ≠ 0
+/-- … and a call that needs an identifier writes exactly one request, with `assigned c id ≠ 0`. -/
+theorem C12_identifier_nonzero_call (c : C) (call : Api) (k : Kind) (id tag : Nat) (hc : c.connected = true)
+    (h : callReq call = some (k, id, tag)) :
+    (step c (.api call)).2.filterMap writtenId = [assigned c id] ∧ assigned c id ≠ 0 :=
+  ⟨(step_api_written c hc call k id tag h).1, assigned_ne_zero c id⟩
 
-/-- the part that holds of the code as modelled -/
-theorem C12_identifier_nonzero_partial (c : C) (call : Api) (k : Kind) (id tag : Nat) (hc : c.connected = true)
-    (h : callReq call = some (k, id, tag)) (hok : id ≠ 0 ∨ c.ctr % 65536 ≠ 65535) :
-    ∀ i ∈ (step c (.api call)).2.filterMap writtenId, i ≠ 0 := by
-  intro i hi
-  rw [(step_api_written c hc call k id tag h).1] at hi
-  have : i = assigned c id := by simpa using hi
-  rw [this]
-  exact (assigned_ne_zero_iff c id).mpr hok
+/-- at the wrap: with the counter at 65535 a QoS 1 publish without a caller-supplied identifier is
+written with identifier 1 and registered under 1; the counter has moved to 65537 -/
+example :
+    let c : C := { demoA with ctr := 65535 }
+    (step c (.api (.publish { qos := 1, topic := [97], payload := [1] } 4))).2 =
+       [.wrote (.publish { qos := 1, topic := [97], pktid := 1, payload := [1] })] ∧
+    (step c (.api (.publish { qos := 1, topic := [97], payload := [1] } 4))).1.pub1ack.map (·.id) = [9, 1] ∧
+    (step c (.api (.publish { qos := 1, topic := [97], payload := [1] } 4))).1.ctr = 65537 := by
+  decide
 
-/-- It is false (defect A2, `message.gPacketID` wraps to 0): with the counter at
-65535 a QoS 1 publish without a caller-supplied identifier is written with
-packet identifier 0 and registered under 0. -/
-theorem C12_identifier_zero_counterexample : ¬ C12_identifier_nonzero_full ∧
-    (let c : C := { demoA with ctr := 65535 }
-     (step c (.api (.publish { qos := 1, topic := [97], payload := [1] } 4))).2 =
-       [.wrote (.publish { qos := 1, topic := [97], pktid := 0, payload := [1] })] ∧
-     (step c (.api (.publish { qos := 1, topic := [97], payload := [1] } 4))).1.pub1ack.map (·.id) = [9, 0]) := by
-  refine ⟨fun h => ?_, by decide⟩
-  exact h { demoA with ctr := 65535 } (.publish { qos := 1, topic := [97], payload := [1] } 4) .pub1 0 4
-    (by decide) (by decide) 0 (by decide) rfl
+/-- across the wrap with requests in flight (the corpus case `corpus/client/auto-id-wrap.ops`):
+counter 65533, five requests without identifiers get 65534, 65535, 1, 2, 3 -/
+example : runOuts { (step init (.connect (.connack false 0))).1 with ctr := 65533 }
+    [.api (.publish { qos := 1, topic := [97], payload := [1] } 1),
+     .api (.subscribe 0 [([97], 1)] 2 1),
+     .api (.publish { qos := 2, topic := [98], payload := [2] } 3),
+     .api (.unsubscribe 0 [[97]] 4),
+     .api (.publish { qos := 1, topic := [97], payload := [3] } 5),
+     .peer (.pubrec 1)] =
+    [[.wrote (.publish { qos := 1, topic := [97], pktid := 65534, payload := [1] })],
+     [.wrote (.subscribe 65535 [([97], 1)])],
+     [.wrote (.publish { qos := 2, topic := [98], pktid := 1, payload := [2] })],
+     [.wrote (.unsubscribe 2 [[97]])],
+     [.wrote (.publish { qos := 1, topic := [97], pktid := 3, payload := [3] })],
+     [.wrote (.pubrel 1)]] := by
+  decide
 
 /-- auto-assigned identifiers away from the wrap: three requests without identifiers get 1, 2, 3 -/
 example : runOuts (step init (.connect (.connack false 0))).1
@@ -372,27 +417,175 @@ example : runOuts (step init (.connect (.connack false 0))).1
      [.wrote (.publish { qos := 2, topic := [97], pktid := 77, payload := [1] })]] := by
   decide
 
-/-- **Identifiers in flight are pairwise distinct**, in every state reached from
-a fresh client by any history (early acknowledgements, repeated identifiers
-and identifier 0 included): within each ack queue no two requests bear the
-same identifier - `Wait` ignores a registration under an identifier that is in
-flight. -/
-theorem C12_inflight_ids_distinct (evs : List Ev) (k : Kind) :
+/-- **Identifiers in flight are non-zero** in every state reached from a fresh
+client by any history (early acknowledgements included). -/
+theorem C12_inflight_ids_nonzero (evs : List Ev) (k : Kind) :
+    ∀ e ∈ queue k (runState init evs), e.id ≠ 0 :=
+  idsNonzero_run init evs idsNonzero_init k
+
+/-- … and the invariant is inductive: preserved by every step from every state that has it. -/
+theorem C12_inflight_ids_nonzero_step (c : C) (ev : Ev) (h : IdsNonzero c) : IdsNonzero (step c ev).1 :=
+  idsNonzero_step c ev h
+
+example : (queue .pub1 (runState init demoC)).map (·.id) = [3, 1] := by decide
+
+/-! ### pairwise distinct
+
+The code takes the next identifier of a 16-bit cycle without looking at what
+is in flight, and a caller may supply identifiers itself.  `Wait` ignores a
+registration under an identifier that is in flight in the same ack queue, so
+*within each queue* the registered identifiers are always pairwise distinct
+(`C12_queue_ids_distinct`) - but the request has been written all the same, and
+the four queues share one identifier space.  The property's claim is about the
+requests *written*: `clearStep c ev` says that the request of `ev` is written
+with an identifier that no request in flight on the connection bears
+(`inFlightIds`: QoS 1 and QoS 2 publishes, subscribes, unsubscribes). -/
+
+/-- Within each ack queue no two registered requests bear the same identifier,
+in every state reached from a fresh client by any history (early
+acknowledgements, repeated identifiers included): `Wait` ignores a
+registration under an identifier that is in flight in its queue. -/
+theorem C12_queue_ids_distinct (evs : List Ev) (k : Kind) :
     ((queue k (runState init evs)).map (·.id)).Nodup :=
   idsNodup_run init evs idsNodup_init k
 
 /-- … and the invariant is inductive: preserved by every step from every state that has it. -/
-theorem C12_inflight_ids_distinct_step (c : C) (ev : Ev) (h : IdsNodup c) : IdsNodup (step c ev).1 :=
+theorem C12_queue_ids_distinct_step (c : C) (ev : Ev) (h : IdsNodup c) : IdsNodup (step c ev).1 :=
   idsNodup_step c ev h
 
-/-- **Identifiers in flight are non-zero** in every state reached by a history
-in which every call either supplies its identifier or meets the counter away
-from the wrap (`IdOk`; the excluded case is `C12_identifier_zero_counterexample`). -/
-theorem C12_inflight_ids_nonzero_partial (evs : List Ev) (hok : IdOk init evs = true) (k : Kind) :
-    ∀ e ∈ queue k (runState init evs), e.id ≠ 0 :=
-  idsNonzero_run init evs idsNonzero_init hok k
+/-- **One step, exactly.**  From a connected state whose identifiers in flight
+are pairwise distinct, a call that needs an identifier leaves them pairwise
+distinct *and* gets its request registered if and only if the identifier it
+writes is not in flight: otherwise either the registration is dropped (same
+ack queue - the request is on the wire and its completion can never fire) or
+two requests in flight bear the identifier (another queue). -/
+theorem C12_distinct_step_iff (c : C) (hc : c.connected = true) (h : AllDistinct c) (call : Api) (k : Kind)
+    (id tag : Nat) (hreq : callReq call = some (k, id, tag)) :
+    (AllDistinct (step c (.api call)).1 ∧ stepAccepted k c (.api call) ≠ []) ↔ assigned c id ∉ inFlightIds c :=
+  api_clear_iff c hc h call k id tag hreq
 
-example : IdOk init demoC = true ∧ (queue .pub1 (runState init demoC)).map (·.id) = [3, 1] := by decide
+/-- A request written with an identifier not in flight is registered, under
+that identifier and with its completion tag - also when its acknowledgement is
+processed before the registration - and the identifiers in flight stay
+pairwise distinct. -/
+theorem C12_clear_step (c : C) (hc : c.connected = true) (h : AllDistinct c) (ev : Ev) (call : Api)
+    (hev : ev = .api call ∨ ∃ ack, ev = .apiEarlyAck call ack) (k : Kind) (id tag : Nat)
+    (hreq : callReq call = some (k, id, tag)) (hclear : clearStep c ev = true) :
+    AllDistinct (step c ev).1 ∧ ∃ r, stepAccepted k c ev = [r] ∧ r.id = assigned c id ∧ r.tag = tag :=
+  ⟨allDistinct_step c ev h hclear, clear_registered c hc ev call hev k id tag hreq hclear⟩
+
+/-- every identifier a caller supplies is not in flight on the connection when the call is made -/
+def callerStep (c : C) : Ev → Bool
+  | .api call | .apiEarlyAck call _ =>
+    match callReq call with
+    | some (_, id, _) => id == 0 || !c.connected || !(inFlightIds c).contains id
+    | none => true
+  | _ => true
+
+def CallerClear (c : C) : List PEv → Bool
+  | [] => true
+  | .own ev :: xs => callerStep c ev && CallerClear (step c ev).1 xs
+  | .others d :: xs => CallerClear { c with ctr := c.ctr + d } xs
+
+/-- the property's claim, in its most favourable reading: as long as the caller
+never supplies an identifier that is in flight, every request is written with
+an identifier that is not in flight (so the identifiers of the requests in
+flight are pairwise distinct and every request is registered: `C12_clear_step`) -/
+def C12_inflight_ids_distinct_full : Prop :=
+  ∀ xs : List PEv, CallerClear init xs = true → Clear init xs = true
+
+/-- **C12, identifiers in flight are pairwise distinct (the part that holds).**
+`Roomy ⟨c, []⟩ xs` (decidable, evaluated along the run with the ghost list of
+the library-assigned identifiers in flight and the counter values that
+produced them) admits a history iff at every call that needs an identifier
+
+* caller-supplied: the identifier is not in flight;
+* library-assigned: every library-assigned identifier in flight was produced
+  fewer than 2^16 counter steps before the new one - i.e. fewer than 65535
+  identifiers have been drawn in the whole process since
+  (`C12_window_in_draws`) -, and the new identifier is not a caller-supplied
+  one in flight.
+
+From every state whose identifiers in flight are pairwise distinct, along every
+admitted history - other connections drawing identifiers in between, early
+acknowledgements included - every request is written with an identifier not in
+flight, and the identifiers in flight are pairwise distinct at every point. -/
+theorem C12_inflight_ids_distinct_partial (c : C) (h : AllDistinct c) (xs : List PEv)
+    (hr : Roomy ⟨c, []⟩ xs = true) :
+    Clear c xs = true ∧ ∀ a b, xs = a ++ b → AllDistinct (prunState c a) := by
+  have hclear := roomy_clear ⟨c, []⟩ xs (fun b hb => by cases hb) hr
+  refine ⟨hclear, ?_⟩
+  rintro a b rfl
+  rw [clear_append, Bool.and_eq_true] at hclear
+  exact allDistinct_prun c a h hclear.1
+
+/-- … in particular from a fresh client. -/
+theorem C12_inflight_ids_distinct_partial_init (xs : List PEv) (hr : Roomy ⟨init, []⟩ xs = true) :
+    Clear init xs = true ∧ ∀ a b, xs = a ++ b → AllDistinct (prunState init a) :=
+  C12_inflight_ids_distinct_partial init allDistinct_init xs hr
+
+/-- The window in counter steps is a window in identifiers drawn: between two
+counter values `n ≤ n'` that produce identifiers lie fewer than 2^16 counter
+steps exactly when fewer than 65535 identifiers were drawn after `n`, up to
+and including `n'`; and two different counter values that produce the same
+identifier are at least 2^16 steps - 65535 draws - apart. -/
+theorem C12_window_in_draws (n n' : Nat) (hn : n % 65536 ≠ 0) :
+    (n ≤ n' → (n' - n < 65536 ↔ drawn n' - drawn n < 65535)) ∧
+    (n < n' → n % 65536 = n' % 65536 → 65536 ≤ n' - n ∧ 65535 ≤ drawn n' - drawn n) :=
+  ⟨window_iff_draws n n' hn, same_id_far_apart n n'⟩
+
+/-- non-vacuity: an admitted history across the wrap - counter advanced by other connections to
+65533, five requests numbered by the library, one with a caller-supplied identifier, acknowledgements
+in between, other connections drawing 60000 identifiers while requests stay in flight -/
+def demoW : List PEv :=
+  [.own (.connect (.connack false 0)), .others 65533,
+   .own (.api (.publish { qos := 1, topic := [97], payload := [1] } 1)),
+   .own (.api (.subscribe 0 [([97], 1)] 2 1)),
+   .own (.api (.publish { qos := 2, topic := [98], payload := [2] } 3)),
+   .own (.api (.publish { qos := 1, topic := [98], pktid := 700, payload := [] } 6)),
+   .own (.peer (.puback 65534)),
+   .others 60000,
+   .own (.api (.unsubscribe 0 [[97]] 4)),
+   .own (.apiEarlyAck (.publish { qos := 1, topic := [97], payload := [3] } 5) (.pubrec 1))]
+
+example : Roomy ⟨init, []⟩ demoW = true ∧ inFlightIds (prunState init demoW) = [700, 60003, 1, 65535, 60002] ∧
+    (prunState init demoW).ctr = 125539 := by
+  decide
+
+/-- **It is false of the code**, in two ways.
+
+(1) A caller-supplied identifier meets the counter: a QoS 1 publish with the
+caller's identifier 1, then a QoS 1 publish that leaves the identifier to the
+library: the library assigns 1 as well.  Both PUBLISH packets are written with
+identifier 1; `Wait` drops the second registration; the PUBACK completes the
+first request only, the completion of the second never fires.
+
+(2) No caller-supplied identifier at all: a request numbered by the library
+stays in flight while 65535 identifiers are drawn in the process (here by other
+connections: `others 65535`, the counter goes from 1 to 65536); the next
+request of the connection - a SUBSCRIBE - gets the same identifier 1: two
+requests in flight bear it. -/
+theorem C12_inflight_ids_distinct_counterexample : ¬ C12_inflight_ids_distinct_full ∧
+    (let evs : List Ev := [.connect (.connack false 0),
+        .api (.publish { qos := 1, topic := [97], pktid := 1, payload := [1] } 1),
+        .api (.publish { qos := 1, topic := [97], payload := [2] } 2),
+        .peer (.puback 1), .peer (.puback 1)]
+     runOuts init evs =
+       [[.connected],
+        [.wrote (.publish { qos := 1, topic := [97], pktid := 1, payload := [1] })],
+        [.wrote (.publish { qos := 1, topic := [97], pktid := 1, payload := [2] })],
+        [.complete 1 false], []] ∧
+     (runState init (evs.take 3)).pub1ack.map (fun r => (r.id, r.tag)) = [(1, 1)]) ∧
+    (let xs : List PEv := [.own (.connect (.connack false 0)),
+        .own (.api (.publish { qos := 1, topic := [97], payload := [1] } 1)),
+        .others 65535,
+        .own (.api (.subscribe 0 [([97], 1)] 2 1))]
+     CallerClear init xs = true ∧ Clear init xs = false ∧
+     inFlightIds (prunState init xs) = [1, 1] ∧ (prunState init xs).ctr = 65537) := by
+  refine ⟨fun h => ?_, by decide, by decide⟩
+  exact absurd (h [.own (.connect (.connack false 0)),
+        .own (.api (.publish { qos := 1, topic := [97], pktid := 1, payload := [1] } 1)),
+        .own (.api (.publish { qos := 1, topic := [97], payload := [2] } 2))] (by decide)) (by decide)
 
 /-! ## (d) refinement: the code-shaped model against the reference client
 
@@ -409,7 +602,11 @@ history iff every event is inside the recorded exclusions:
 * filters and delivered topic names without empty levels and not beginning
   with `$` (`good`, B3), delivered names valid, QoS <= 2;
 * QoS 1/2 publishes, subscribes, unsubscribes carry a caller-supplied non-zero
-  identifier (the reference client cannot track library-assigned ones);
+  identifier (`Spec.Client.step` tracks a request by the identifier on the
+  event; of a library-assigned identifier the reference client demands only
+  `Spec.Client.idAllowed` - non-zero, 16 bits, not in flight - and the
+  specification stream knows such a request by a name, `Spec.Client.autoName`:
+  section (e) has the model's side);
 * and the peer keeps to the protocol where the property is silent: SUBACK
   return codes in {0, 1, 2, 0x80}, no PUBREC for an exchange whose PUBCOMP was
   already processed, filters of one Subscribe valid and pairwise different
